@@ -66,13 +66,32 @@ def generate(seed, tier, index):
         if mm.free.mean() >= 0.6 and mm.a0(mm.x0) > 0:
             spec = cand
             break
+    giant = rs.chance(0.05)
+    if giant:
+        # one species above 2^31 molecules in a cell (counts are doubles: exact far beyond that), next to ordinary ones
+        vol = (rs.loguniform(0.5, 2.0) * 1e-6) ** 3
+        nc_ = rs.choice([1, 1, 2])
+        xa = float(int(rs.uniform(2.3e9, 8e9)))
+        spec = {"envs": ["cyt"],
+                "species": [{"label": "A", "D": [0.0], "dens": [0.0], "chst": [0]},
+                            {"label": "B", "D": [0.0], "dens": [0.0], "chst": [0]},
+                            {"label": "C", "D": [rs.loguniform(0.02, 0.5) * 1e-12 if nc_ > 1 else 0.0], "dens": [0.0], "chst": [0]},
+                            {"label": "E", "D": [0.0], "dens": [0.0], "chst": [0]}],
+                "reactions": [{"label": None, "sub": {"A": 1}, "prod": {"B": 1}, "kf": [rs.loguniform(0.5, 2.0)], "kr": [0.0]},
+                              {"label": None, "sub": {"C": 1}, "prod": {"E": 1}, "kf": [rs.loguniform(0.5, 2.0)], "kr": [0.0]}],
+                "space": {"type": "grid", "w": nc_, "h": 1, "d": 1, "bc": ["reflecting"] * 3, "cell_env": [0] * nc_, "vol": vol},
+                "state": [xa] + [0.0] * (nc_ - 1) + [0.0] * nc_ + [float(rs.randint(20, 400))] * nc_ + [0.0] * nc_, "chem": None}
     e0 = C.make_script_entry(rs, ru, rk, kind, spec_p,
-                             {"steps": steps, "policy": "on_iteration", "isp": rk.choice(["none", "none", "auto"]),
+                             {"steps": steps, "policy": "on_iteration", "isp": "none" if giant else rk.choice(["none", "none", "auto"]),
                               "p_seed": 1.0, "p_explicit_tmax": 1.0, "nreq": (1, 2), "courant": (0.02, 0.2), "p_zero_tmax": 0.0},
                              rich=rs.chance(0.3), spec=spec)
     nruns = rf.randint(3, 6) if kind == "gillespie" else rf.randint(2, 5)
     scripts = []
     eps = []
+    warm = None
+    if rf.chance(0.25):
+        # earlier in the same process: the same grid with one boundary condition flipped (what the engine keeps per shape)
+        warm = C.bc_flipped_entry(e0, rf.sub("flip"))
     for r in range(nruns):
         e = copy.deepcopy(e0)
         sd = rf.bits(31)
@@ -82,8 +101,16 @@ def generate(seed, tier, index):
         cap = 40
         ops = [["poison", 0], ["setup"], ["drive", [["iterate_n", 500]], cap], ["output"], ["finalize"]]
         eps.append({"obj": 0, "kind": kind, "via": "LibRDEngine", "script": r, "ops": ops})
+    if warm is not None:
+        scripts.append(warm)
+        wops = [["poison", 0], ["setup"], ["iterate_n", rf.randint(1, 20)]]
+        if rf.chance(0.6):
+            wops.append(["finalize"])
+        eps.insert(0, {"obj": rf.randint(0, 1), "kind": kind, "via": "LibRDEngine", "script": len(scripts) - 1, "ops": wops,
+                       "warm": True})
     return {"format": 1, "property": ID, "seed": seed, "tier": tier, "index": index, "build": "plain",
-            "scripts": scripts, "lifetimes": [{"pyseed": 1, "episodes": eps}], "meta": {"kind": kind, "nruns": nruns}}
+            "scripts": scripts, "lifetimes": [{"pyseed": 1, "episodes": eps}],
+            "meta": {"kind": kind, "nruns": nruns, "warm": warm is not None, "giant": giant}}
 
 
 # ------------------------------------------------------------------------------------------------ static event table
@@ -341,13 +368,16 @@ def check(case, results):
         if bad:
             viol.append(dict(ctx, oracle="C07.no-exception", op=bad[0]["i"], detail=bad[0]["exc"] + "\n" + bad[0].get("tb", "")))
             continue
+        if ep.get("warm"):
+            stats["prehistory_same_grid_other_boundary_condition"] = 1
+            continue
         st, dr, out = evs.get((ei, 1)), evs.get((ei, 2)), evs.get((ei, 3))
         if st is None or dr is None or out is None:
             continue
         if st.get("status"):
             continue
         n = out["n"]
-        if n < 2:
+        if n < (1 if kind == "gillespie" else 2):
             continue
         T = np.frombuffer(out["raw_t"], dtype=np.float64) * ft
         X = np.frombuffer(out["raw_x"], dtype=np.float64).reshape(n, m.ns, m.nc)
@@ -360,6 +390,8 @@ def check(case, results):
     stats["nontrivial"] = 1 if N >= 50 else 0
     stats["null_effect_steps"] = acc["null_steps"]
     stats["runs_that_died"] = acc["died"]
+    if case["meta"].get("giant"):
+        stats["count_above_2^31_in_a_cell"] = 1
     ctx = {"class": "violation", "lifetime": 0, "episode": None}
     if kind == "gillespie" and not viol:
         w = np.array(acc["w"])
